@@ -1,9 +1,66 @@
 import ALV.Common.Json
+import ALV.Model.C16
+import ALV.Spec.C16
 namespace ALV.Driver.C16
-open ALV ALV.J
+open ALV ALV.J ALV.C16
 
-/-- stub: the C16 slice is not built yet -/
-def handle (entry : String) (_j : Json) : Except String Json :=
-  throw s!"C16: unknown entry {entry}"
+def obsJson : Obs Rat → Json
+  | .ok => Json.str "ok"
+  | .valueError => Json.mkObj [("err", Json.str "ValueError")]
+  | .out v k => Json.mkObj [("out", ratToJson v), ("started", natToJson k)]
+  | .stop => Json.str "stop"
+
+def getOp (j : Json) : Except String (Op Rat) := do
+  let op ← getStr (← field j "op")
+  match op with
+  | "add" =>
+    let d ← getRat (← field j "delta")
+    let xs ← getList getRat (← field j "data")
+    pure (.add d xs)
+  | "next" => pure .next
+  | "keep" => pure (.setKeep (← getBool (← field j "v")))
+  | _ => throw s!"C16: unknown op {op}"
+
+def getCOp (j : Json) : Except String (COp Json) := do
+  let op ← getStr (← field j "op")
+  match op with
+  | "set" => pure (.set (← field j "v"))
+  | "read" => pure .read
+  | _ => throw s!"C16: unknown control op {op}"
+
+/-- a read shows `{"v": value}`, an assignment shows `null` -/
+def rd (v : Json) : Json := Json.mkObj [("v", v)]
+
+/-- a history on one Streamix: after every operation the model observation with the sizes of
+    `_not_playing` / `_playing` and the `count` the suspended generator holds, and the spec
+    observation; at the end the spec's log (start of every accepted event). -/
+def handle (entry : String) (j : Json) : Except String Json := do
+  match entry with
+  | "streamix" =>
+    let keep ← getBool (fieldD j "keep" (Json.bool false))
+    let zero ← getRat (fieldD j "zero" (Json.int 0))
+    let ops ← getList getOp (← field j "ops")
+    let tr := mtrace zero (MState.init keep : MState Rat) ops
+    let m := tr.map fun (st, o) =>
+      let cnt := match o with
+        | .out _ _ => ratToJson (st.count - 1)      -- the generator is suspended before `count += 1.`
+        | _ => Json.null
+      Json.arr [obsJson o, natToJson st.notPlaying.length, natToJson st.playing.length, cnt]
+    let mr := mrun zero (MState.init keep : MState Rat) ops
+    let sr := srun zero (SState.init keep : SState Rat) ops
+    pure <| Json.mkObj [
+      ("model", Json.arr m),
+      ("model_run", arr obsJson mr.2),
+      ("spec", arr obsJson sr.2),
+      ("starts", nats (sr.1.evs.map (·.start))),
+      ("n", natToJson sr.1.n),
+      ("length", natToJson (mixLength sr.1.evs))]
+  | "control" =>
+    let init ← field j "init"
+    let ops ← getList getCOp (← field j "ops")
+    pure <| Json.mkObj [
+      ("model", arr (optJson rd) (crun init ops)),
+      ("spec", arr (optJson rd) (cspec init ops))]
+  | _ => throw s!"C16: unknown entry {entry}"
 
 end ALV.Driver.C16
